@@ -11,37 +11,37 @@ open MsiModel MsiModel.Bytes MsiModel.Pkg MsiProofs.PoolText MsiProofs.Lifecycle
 open MsiProofs.CreateTable MsiProofs.FullHistory MsiProofs.Created MsiProofs.CatalogSync
 
 section
-variable (A : List Char → Prop)
+variable (C : Nat → Prop) (A : List Char → Prop)
 
-/-- the texts a call hands over satisfy `A`; a new code page is a supported one -/
+/-- the texts a call hands over satisfy `A`; a new code page satisfies `C` -/
 def StepA : Step → Prop
   | .dml (.insert _ rows) => RowsA A rows
   | .dml (.update _ ups _) => ∀ u ∈ ups, ValA A u.2
   | .create n c => RowsA A (catalogRowsColumns n c) ∧ RowsA A [[.str n]] ∧ RowsA A (catalogRowsValidation n c)
-  | .setCodepage cp => cp < Gen.cpVariants.length
+  | .setCodepage cp => C cp
   | _ => True
 
-theorem pt_of_strings {p p' : Pool} (hs : p'.strings = p.strings) (hc : p'.codepage = p.codepage) (h : PT A p) :
-    PT A p' := by
+theorem pt_of_strings {p p' : Pool} (hs : p'.strings = p.strings) (hc : p'.codepage = p.codepage) (h : PT C A p) :
+    PT C A p' := by
   unfold PT at *
   rw [hs, hc]; exact h
 
 /-- **one call keeps the pool fit to be written** -/
 theorem step_pt (h0 : A []) (slack : Nat → Nat) (s : Pkg) (tabs : List Table) (hF : Full slack s tabs)
-    (st : Step) (ha : st.Admissible s) (hA : StepA A st) (hp : PT A s.pool) : PT A (st.run s).pool := by
+    (st : Step) (ha : st.Admissible s) (hA : StepA C A st) (hp : PT C A s.pool) : PT C A (st.run s).pool := by
   cases st with
   | dml op =>
     cases op with
-    | insert t rows => exact insertExec_pt A { s with finisher := true } t rows hA hp
-    | delete t cond => exact deleteExec_pt A h0 { s with finisher := true } t cond hp
-    | update t ups cond => exact updateExec_pt A h0 { s with finisher := true } t ups cond hA hp
-  | create n c => exact createTable_pt A s n c hA.1 hA.2.1 hA.2.2 hp
-  | drop n => exact dropTable_pt A h0 s n hp
+    | insert t rows => exact insertExec_pt C A { s with finisher := true } t rows hA hp
+    | delete t cond => exact deleteExec_pt C A h0 { s with finisher := true } t cond hp
+    | update t ups cond => exact updateExec_pt C A h0 { s with finisher := true } t ups cond hA hp
+  | create n c => exact createTable_pt C A s n c hA.1 hA.2.1 hA.2.2 hp
+  | drop n => exact dropTable_pt C A h0 s n hp
   | writeStream n d =>
-    show PT A (writeStream s n d).1.pool
+    show PT C A (writeStream s n d).1.pool
     unfold writeStream; split <;> exact hp
   | removeStream n =>
-    show PT A (removeStream s n).1.pool
+    show PT C A (removeStream s n).1.pool
     unfold removeStream
     split
     · exact hp
@@ -50,21 +50,24 @@ theorem step_pt (h0 : A []) (slack : Nat → Nat) (s : Pkg) (tabs : List Table) 
   | setSummary f => exact hp
   | setCodepage cp => exact ⟨hA, hp.2⟩
   | save =>
-    show PT A (flush s).1.pool
+    show PT C A (flush s).1.pool
     unfold flush
     split
     · obtain ⟨-, h2, h3, -⟩ := finish_keeps { s with finisher := false }
-      exact pt_of_strings A h2 h3 hp
+      exact pt_of_strings C A h2 h3 hp
     · exact hp
   | reopen =>
     have hAll := full_allInv slack s tabs hF
     obtain ⟨s2, ho, -, -, hpool, -⟩ := reopen_same_tables s tabs ha hAll.cat
-    show PT A (match open_ (some s.ptype) s.cont with | .ok s2 => s2 | _ => s).pool
+    show PT C A (match open_ (some s.ptype) s.cont with | .ok s2 => s2 | _ => s).pool
     rw [ho]
     simp only
     rw [hpool]; exact hp
 
 end
+
+/-- a supported code page -/
+def Supported (cp : Nat) : Prop := cp < Gen.cpVariants.length
 
 /-- ASCII text shorter than 4 GiB -/
 def AsciiShort (s : List Char) : Prop := MsiProofs.AsciiSavable.IsAscii s ∧ s.length < 4294967296
@@ -72,13 +75,13 @@ def AsciiShort (s : List Char) : Prop := MsiProofs.AsciiSavable.IsAscii s ∧ s.
 theorem asciiShort_nil : AsciiShort [] := ⟨fun _ h => (by cases h), (by simp)⟩
 
 /-- a pool of such texts can be written and read back under its code page -/
-theorem poolOk_of_pt (p : Pool) (h : PT AsciiShort p) : MsiProofs.PoolCodec.PoolOk p MsiProofs.AsciiCodec.asciiBytes :=
+theorem poolOk_of_pt (p : Pool) (h : PT Supported AsciiShort p) : MsiProofs.PoolCodec.PoolOk p MsiProofs.AsciiCodec.asciiBytes :=
   MsiProofs.AsciiSavable.poolOk_ascii p h.1 (fun e he => (h.2 e he).1.1)
     (fun e he => ⟨(h.2 e he).1.2, (h.2 e he).2.1, (h.2 e he).2.2⟩)
 
 /-- the calls covered, with `Savable` at a save reduced to the summary's well-formedness -/
 def StepOk (s : Pkg) (st : Step) : Prop :=
-  StepA AsciiShort st ∧
+  StepA Supported AsciiShort st ∧
   match st with
   | .save => (flush s).2 = .ok () ∧ MsiProofs.PropSetCodec.WF s.summary ∧ s.summary.fmtid = Gen.summaryFmtid
   | st => st.Admissible s
@@ -87,7 +90,7 @@ def AdmissibleA : Pkg → List Step → Prop
   | _, [] => True
   | s, st :: rest => StepOk s st ∧ AdmissibleA (st.run s) rest
 
-theorem admissible_of_stepOk (s : Pkg) (st : Step) (h : StepOk s st) (hp : PT AsciiShort s.pool) :
+theorem admissible_of_stepOk (s : Pkg) (st : Step) (h : StepOk s st) (hp : PT Supported AsciiShort s.pool) :
     st.Admissible s := by
   obtain ⟨-, h2⟩ := h
   cases st with
@@ -104,8 +107,8 @@ theorem admissible_of_stepOk (s : Pkg) (st : Step) (h : StepOk s st) (hp : PT As
 
 /-- **every reachable state keeps every invariant and a pool fit to be written** -/
 theorem historyA (slack : Nat → Nat) (steps : List Step) : ∀ (s : Pkg) (tabs : List Table),
-    Full slack s tabs → NoOrphans s → PT AsciiShort s.pool → AdmissibleA s steps →
-    Admissible s steps ∧ PT AsciiShort (runAll s steps).pool ∧
+    Full slack s tabs → NoOrphans s → PT Supported AsciiShort s.pool → AdmissibleA s steps →
+    Admissible s steps ∧ PT Supported AsciiShort (runAll s steps).pool ∧
     ∃ tabs', Full slack (runAll s steps) tabs' ∧ NoOrphans (runAll s steps) := by
   induction steps with
   | nil => intro s tabs hF hN hp _; exact ⟨trivial, hp, tabs, hF, hN⟩
@@ -113,12 +116,12 @@ theorem historyA (slack : Nat → Nat) (steps : List Step) : ∀ (s : Pkg) (tabs
     intro s tabs hF hN hp ha
     have hadm := admissible_of_stepOk s st ha.1 hp
     obtain ⟨tabs', hF', hN'⟩ := step_full slack s tabs hF hN st hadm
-    have hp' := step_pt AsciiShort asciiShort_nil slack s tabs hF st hadm ha.1.1 hp
+    have hp' := step_pt Supported AsciiShort asciiShort_nil slack s tabs hF st hadm ha.1.1 hp
     obtain ⟨h1, h2, h3⟩ := ih _ tabs' hF' hN' hp' ha.2
     exact ⟨⟨hadm, h1⟩, h2, h3⟩
 
 theorem base_pt (ptype : Nat) (summary : PropSet) (hcp : summary.codepage < Gen.cpVariants.length) :
-    PT AsciiShort (base ptype summary).pool :=
+    PT Supported AsciiShort (base ptype summary).pool :=
   ⟨hcp, fun e he => by cases he⟩
 
 /-- executable form of "every text of these rows is ASCII and short" -/
@@ -146,8 +149,8 @@ theorem validation_rows_ascii :
 /-- the pool of the state `create` builds is fit to be written -/
 theorem created_pt (ptype : Nat) (summary : PropSet) (hcp : summary.codepage < Gen.cpVariants.length) (s0 : Pkg)
     (hc : createTable (base ptype summary) Gen.nameValidation.toList Catalog.validationColumns = (s0, .ok ())) :
-    PT AsciiShort s0.pool := by
-  have := createTable_pt AsciiShort (base ptype summary) Gen.nameValidation.toList Catalog.validationColumns
+    PT Supported AsciiShort s0.pool := by
+  have := createTable_pt Supported AsciiShort (base ptype summary) Gen.nameValidation.toList Catalog.validationColumns
     validation_rows_ascii.1 validation_rows_ascii.2.1 validation_rows_ascii.2.2 (base_pt ptype summary hcp)
   rw [hc] at this; exact this
 
